@@ -102,6 +102,9 @@ def prior_text(scn, name):
 # --------------------------------------------------------------------------
 # running
 # --------------------------------------------------------------------------
+LEFTOVERS = (('tmpk3w9x_2a', 3 * 86400), ('tmpzz81ab3c', 40 * 86400), ('tmp0a1b2c3d', 5))
+
+
 def _setup(scn, root):
     dest = os.path.join(root, 'dst')
     with core.unhooked():
@@ -114,6 +117,12 @@ def _setup(scn, root):
                 with open(os.path.join(dest, name + sfx), 'wb') as f:
                     f.write(t.encode('utf-8'))
                 os.utime(os.path.join(dest, name + sfx), (core.EPOCH0 - 1000, core.EPOCH0 - 1000))
+        if scn.get('leftovers') and scn['dest'] != 'missing':
+            # temporary files of an earlier, interrupted run: not ours to judge, and not to be touched by a dry run
+            for fn_, age_ in LEFTOVERS:
+                with open(os.path.join(dest, fn_), 'w') as f:
+                    f.write('half-written output of an interrupted run\n')
+                os.utime(os.path.join(dest, fn_), (core.EPOCH0 - age_, core.EPOCH0 - age_))
     return dest
 
 
@@ -220,7 +229,7 @@ def run(scn):
         for n in names:
             t = prior_text(scn, n) if scn['dest'] == 'populated' else None
             model[n] = t.encode('utf-8') if t is not None else None
-        garbage_ok = set()
+        garbage_ok = set(fn_ for fn_, _a in LEFTOVERS) if scn.get('leftovers') and scn['dest'] != 'missing' else set()
         started = {}   # name -> list of complete byte strings that may legitimately appear
         for n in names:
             started[n] = [model[n]]
@@ -249,19 +258,21 @@ def run(scn):
             data_b = text.encode('utf-8')
             if not op.get('dryRun'):
                 started[op['name']].append(data_b)
-            if scn.get('persistent_writer'):
-                # one long-lived writer object for the whole history
-                if 'w' not in state:
-                    state['w'] = writer_for(scn['writer'], dest)[0]
-                writer = state['w']
-            else:
-                writer, _ = writer_for(scn['writer'], dest)
             kwargs = {}
             if op.get('comments'):
                 kwargs['comments'] = list(op['comments'])
             if op.get('dryRun'):
                 kwargs['dryRun'] = True
             try:
+                # making the writer object is part of the operation: whatever its constructor does to the file system is
+                # subject to the same faults and to the same rules (dry-run included)
+                if scn.get('persistent_writer'):
+                    # one long-lived writer object for the whole history
+                    if 'w' not in state:
+                        state['w'] = writer_for(scn['writer'], dest)[0]
+                    writer = state['w']
+                else:
+                    writer, _ = writer_for(scn['writer'], dest)
                 writer.putData(op['name'], text, **kwargs)
                 return ('ok', None)
             except error.PySmiWriterError as e:
@@ -381,7 +392,7 @@ def run(scn):
                         w.probe('concurrent-failure-without-injected-fault')
                 if not cleanup_faulted and not any(r[0] == 'killed' for r in results.values()):
                     after = _dest_files(dest)
-                    allowed = set(n + sfx for n in names)
+                    allowed = set(n + sfx for n in names) | garbage_ok
                     extra = sorted(k for k in after if k not in allowed and after[k][0] != 'd')
                     if extra:
                         V('C13.2-no-temp', 'temporary file left behind by concurrent writers: %s' % extra, what='concurrent-temp')
@@ -506,6 +517,8 @@ def generate(rng, tier):
     dest = rng.choice(DESTS)
     names = ['MOD-A', 'MOD-B', 'Mod-c'][:rng.choice([1, 1, 2, 3])]
     scn = {'writer': wk, 'dest': dest, 'listing_seed': rng.randrange(1 << 30)}
+    if dest != 'missing' and rng.random() < 0.25:
+        scn['leftovers'] = True
     if dest == 'populated':
         scn['prior'] = {n: {'size': rng.choice([1, 37, 150, 5000]), 'kind': rng.choice(['ascii', 'utf8'])} for n in names if rng.random() < 0.8}
 
